@@ -9,6 +9,8 @@
 package vsched
 
 import (
+	"bytes"
+	"runtime"
 	"sort"
 	"sync"
 	"testing/synctest"
@@ -60,11 +62,31 @@ type Sched struct {
 
 var active *Sched
 
+var names sync.Map // goroutine id -> name given by SetName
+
+func goid() string {
+	b := make([]byte, 64)
+	b = b[:runtime.Stack(b, false)]
+	b = bytes.TrimPrefix(b, []byte("goroutine "))
+	if i := bytes.IndexByte(b, ' '); i > 0 {
+		b = b[:i]
+	}
+	return string(b)
+}
+
+// SetName names the calling goroutine: its points are labelled "<name>:<label>", which makes the canonical order of
+// goroutines parked at the same kind of point independent of their arrival order. ClearName removes the name again.
+func SetName(n string) { names.Store(goid(), n) }
+func ClearName()       { names.Delete(goid()) }
+
 // Point parks the calling goroutine until the scheduler releases it (no-op without a scheduler).
 func Point(label string) {
 	s := active
 	if s == nil {
 		return
+	}
+	if n, ok := names.Load(goid()); ok {
+		label = n.(string) + ":" + label
 	}
 	w := &waiter{label: label, goCh: make(chan struct{})}
 	select {
